@@ -262,6 +262,11 @@ def dpor_extra_spaces(which):
         "csch": lambda: {"label": "dporCsCh", "n": 3, "progs": dporcheck.space2(3, ["send", "cssend", "st"], ["recv", "csrecv", "tryrecv"], ["x"], ["m"], 2, 2, chan=True)},
         "trych": lambda: {"label": "dporTryCh", "n": 3, "invariants": ["Sound"],
                           "progs": dporcheck.space2(3, ["trysend", "send", "cssend"], ["csrecv", "recv"], ["x"], ["m"], 1, 2, chan=True)},
+        # RwLock and Mutex nested in both orders: inversions across the two kinds of lock are real deadlocks, none is invented
+        "rwmx": lambda: {"label": "dporRwMx", "n": 3, "progs": dporcheck.space(3, ["rdcs", "csrd", "wrcs", "cswr"], ["x"], ["m"], 1, 0)},
+        "rwmx2": lambda: {"label": "dporRwMx2", "n": 3, "progs": dporcheck.space(3, ["rdcs", "csrd", "wrcs", "cswr"], ["x"], ["m"], 2, 0)},
+        "rwmxtry": lambda: {"label": "dporRwMxTry", "n": 3, "invariants": ["Sound"],
+                            "progs": dporcheck.space(3, ["rdcs", "wrcs", "cstryrd", "cstrywr"], ["x"], ["m"], 1, 0)},
         "arc1": lambda: {"label": "dporArc1", "n": 3, "progs": dporcheck.space2(3, ["acount", "aclonedrop", "ld"], ["acount"], ["x"], ["m"], 1, 1, arc=True)},
         "arc2": lambda: {"label": "dporArc2", "n": 3, "progs": dporcheck.space2(3, ["acount", "aclonedrop", "acloneinspectdrop"], [], ["x"], ["m"], 1, 0, arc=True)},
         # spaces in which the design itself is known to be incomplete (F15, F17, F13): conformance of the schedule sets only
@@ -338,7 +343,7 @@ def C05(ctx):
     sync_family(ctx, families.blocking(ctx.tier, ctx.seed), want=("fails", "sound", "complete", "trace"))
     # Dpor.tla over nested sections of two mutexes: lock-order inversions must be reported (Complete), a holder that only TRIES
     # its second lock never deadlocks with anybody (Sound: F22)
-    dpor_space(ctx, [None], ("C01",), quick_sample=30, spaces=dpor_extra_spaces(["try2", "trych"] + (["try2b", "csch"] if ctx.tier == "thorough" else []))
+    dpor_space(ctx, [None], ("C01",), quick_sample=30, spaces=dpor_extra_spaces(["try2", "trych", "rwmx", "rwmxtry"] + (["try2b", "csch", "rwmx2"] if ctx.tier == "thorough" else []))
                + [("dporNest", 3, ["nest", "csld"], ["x"], ["m", "n"], 1, 0)])
 
 
